@@ -133,6 +133,7 @@ def run(chk):
         chk.section(f"cfg-builder-{i}", lambda i=i: layer_a(chk, i))
     chk.section("block-interfaces", lambda: layer_b(chk))
     chk.section("compile_bb", lambda: layer_b3(chk))
+    chk.section("tuple-unpacking", lambda: _tuple_unpacking(chk))
     for i in range(NCH_C):
         chk.section(f"bounded-{i}", lambda i=i: layer_c(chk, i))
     chk.expected_min_obligations = 60
@@ -457,3 +458,10 @@ def layer_b3(chk):
               "guppylang_internals.std._internal.compiler.tket_bool:read_bool", f"{CC}:choose_vars_for_tuple_sum"):
         e.models.pop(k, None)
     chk.use_engine(e)
+
+
+def _tuple_unpacking(chk):
+    """unpacking assignments with a tuple on the right follow Python (StmtCompiler._assign_tuple; the
+    obligations are C19's, run here under this property's name)"""
+    from .C19 import tuple_unpacking
+    tuple_unpacking(chk, tag="unpacking-assignment:")
